@@ -1413,6 +1413,10 @@ class SocketStream(abc.SocketStream):
         with self._send_guard:
             await AsyncIOBackend.checkpoint()
 
+            # If a previous send() was cancelled while waiting, the write buffer may still
+            # be full; don't pile more data on top of it
+            await self._protocol.write_event.wait()
+
             if self._closed:
                 raise ClosedResourceError
             elif self._protocol.exception is not None:
